@@ -276,6 +276,68 @@ def check_paths(run, router, keys, quick, samples, distinct):
                 return evals
     samples.append({"kind": "paths", "key": meta[3][2], "steps": [p for p, w in meta[3][3] if w is not None]})
 
+    # multi-parameter Binds: the key at every position among arbitrary other parameters
+    r2 = run.rng
+    mcases, mexprs, mmeta = [], [], []
+    n = 7
+    S2 = {"shards": n, "func": "pg", "parser": True, "splitting": True, "auto_key": "data.id"}
+    for t in range(120 if quick else 1500):
+        m = r2.randint(1, 5)
+        j = r2.randint(1, m)
+        k = r2.choice(sub)
+        mode = r2.choice(["none", "uniform_text", "uniform_bin", "per"])
+        fm = {"none": [], "uniform_text": [0], "uniform_bin": [1], "per": [r2.randint(0, 1) for _ in range(m)]}[mode]
+        if m == 1 and mode == "per":
+            fm = [fm[0]]
+
+        def isbin(i):
+            return (fm[0] if len(fm) == 1 else (fm[i] if fm else 0)) == 1
+        params = []
+        for i in range(m):
+            if i + 1 == j:
+                if isbin(i):
+                    params.append(struct.pack(">q", k))
+                else:
+                    params.append(str(k).encode() if r2.random() < 0.9 else b"notanumber")
+            else:
+                c = r2.random()
+                if c < 0.2:
+                    params.append(None)
+                elif c < 0.5:
+                    params.append(bytes(r2.getrandbits(8) for _ in range(r2.choice([0, 1, 2, 3, 4, 5, 8, 9, 17]))))
+                elif c < 0.8:
+                    params.append(str(r2.randint(-10**6, 10**6)).encode())
+                else:
+                    params.append(b"hello world")
+        conds = " AND ".join(("id = $%d" % (i + 1)) if i + 1 == j else ("c%d = $%d" % (i, i + 1)) for i in range(m))
+        shape = r2.choice(["select", "update"])
+        if shape == "update" and m > 1:
+            sets = ", ".join("c%d = $%d" % (i, i + 1) for i in range(m) if i + 1 != j)
+            sql = "UPDATE data SET %s WHERE id = $%d" % (sets, j)
+        else:
+            sql = "SELECT * FROM data WHERE " + conds
+        mcases.append({"settings": S2, "steps": [{"op": "route", "proto": "P", "sql": sql}, {"op": "bind", "hex": bind_msg(params, fm)}]})
+        plist = "[" + "; ".join("None" if p is None else "Some " + vlib.coq_bytes(p) for p in params) + "]"
+        mexprs.append("(bind_keys [%d%%nat] [%s] %s)" % (j, "; ".join("true" if f else "false" for f in fm), plist))
+        mmeta.append((sql, j, k, fm, [None if p is None else p.hex() for p in params]))
+    mvals = vlib.coq_eval("c06b", "From PV Require Import Shard.Paths.\nFrom Coq Require Import ZArith NArith List. Import ListNotations.", mexprs)
+    mres = RL.run_router(router, mcases)
+    for (sql, j, k, fm, ph), v, r in zip(mmeta, mvals, mres):
+        evals += 1
+        distinct.add(("bind_multi", j, k, tuple(fm), tuple(ph)))
+        run.cov["traces_validated_against_impl"] += 1
+        mk = vlib.parse_coq(v)
+        o = r["out"][-1]
+        got = "Panics" if "panic" in o else o["state"]["shard"]
+        want_sh = pg_partition(mk[0], n) if len(mk) == 1 else None
+        if got != want_sh:
+            kind = "counterexample" if (got == "Panics" or (mk == [k] and got != pg_partition(k, n))) else "tie-broken"
+            run.violation(kind, "Bind with the key at position %d of %d parameters: implementation selects %r, model %r (statement %s)" % (j, len(ph), got, want_sh, sql),
+                          {"correspondence": "Shard/Paths.v bind_keys vs QueryRouter::infer_shard_from_bind", "input": {"sql": sql, "key_position": j, "key": k, "formats": fm, "params_hex": ph},
+                           "model_keys": mk, "impl": got, "expected_shard": want_sh})
+            return evals
+    samples.append({"kind": "bind_multi", "sql": mmeta[0][0], "key_position": mmeta[0][1], "key": mmeta[0][2], "formats": mmeta[0][3], "params_hex": mmeta[0][4], "model": mvals[0]})
+
     # malformed / unusual spellings: the real text paths vs the Coq path model (Key k / NoKey / Panics)
     n = 5
     spell = spell_extra + [str(k).encode() for k in sub[:40]]
@@ -291,16 +353,17 @@ def check_paths(run, router, keys, quick, samples, distinct):
                                                {"op": "bind", "hex": bind_msg([s], [])}]})
     vals = vlib.coq_eval("c06p", "From PV Require Import Shard.Paths.\nFrom Coq Require Import ZArith NArith List. Import ListNotations.", exprs)
     res = RL.run_router(router, cases)
-    known = {e["id"]: e for e in vlib.known_findings("C06") if e.get("status") == "known"}
 
     def obs(o):
         if "panic" in o:
             return "Panics"
+        if o.get("cmd") and o["cmd"][0] == "InvalidShardingKey":
+            return "Rejected" if o["state"]["shard"] is None else "Rejected-but-shard-changed"
         sh = o["state"]["shard"]
         return "NoKey" if sh is None else ("Key", sh)
 
     def want(m):
-        return m if m in ("Panics", "NoKey") else ("Key", pg_partition(m[1], n))
+        return m if isinstance(m, str) else ("Key", pg_partition(m[1], n))
     for i, s in enumerate(spell):
         models = vlib.parse_coq(vals[i])
         outs = [obs(res[3 * i]["out"][-1]), obs(res[3 * i + 1]["out"][-1]), obs(res[3 * i + 2]["out"][-1])]
@@ -308,19 +371,15 @@ def check_paths(run, router, keys, quick, samples, distinct):
             evals += 1
             distinct.add((path, "spelling", s))
             run.cov["traces_validated_against_impl"] += 1
+            if g == "Panics":
+                run.violation("counterexample", "spelling %r via %s panics the client task" % (s, path),
+                              {"input": {"spelling": s.decode("latin1"), "path": path}, "impl": "panic", "model": str(want(m))})
+                return evals
             if g != want(m):
                 run.violation("tie-broken", "path model and implementation disagree on spelling %r via %s: model %s, impl %s" % (s, path, want(m), g),
                               {"correspondence": "Shard/Paths.v vs QueryRouter", "input": {"spelling": s.decode("latin1"), "path": path}, "model": str(want(m)), "impl": str(g)},
                               found_input=True)
                 return evals
-            if g == "Panics":
-                kid = "F5-set-sharding-key-overflow"
-                if path == "set_key" and kid in known and s.isdigit() and int(s) >= 2**63:
-                    run.known_finding("SET SHARDING KEY TO '<digits beyond i64>' panics the client task instead of answering (e.g. %s)" % s.decode(), key=kid)
-                else:
-                    run.violation("counterexample", "spelling %r via %s panics the client task" % (s, path),
-                                  {"input": {"spelling": s.decode("latin1"), "path": path}, "impl": "panic"})
-                    return evals
     samples.append({"kind": "spelling", "text": spell[2].decode(), "model": vals[2]})
     return evals
 
